@@ -18,13 +18,14 @@ type S = Compat<DuplexStream>;
 
 struct MemDialer {
   peer_side: Arc<Mutex<Option<DuplexStream>>>,
+  duplex: usize,
 }
 
 #[async_trait::async_trait]
 impl Dialer for MemDialer {
   type Stream = S;
   async fn dial(&self) -> anyhow::Result<S> {
-    let (a, b) = tokio::io::duplex(1 << 20);
+    let (a, b) = tokio::io::duplex(self.duplex);
     *self.peer_side.lock().unwrap() = Some(b);
     Ok(a.compat())
   }
@@ -73,7 +74,7 @@ async fn run_history(c: &Value) -> Value {
   let max_inflight = c["max_inflight"].as_u64().unwrap() as u32;
   let timeout_ms = c["timeout_ms"].as_u64().unwrap_or(5000);
   let peer_side = Arc::new(Mutex::new(None));
-  let dialer = Arc::new(MemDialer { peer_side: peer_side.clone() });
+  let dialer = Arc::new(MemDialer { peer_side: peer_side.clone(), duplex: c.get("duplex").and_then(|v| v.as_u64()).unwrap_or(1 << 20) as usize });
   let cfg = Config {
     max_idle_connections: 1,
     heartbeat_interval: Duration::from_secs(3600),
@@ -92,9 +93,40 @@ async fn run_history(c: &Value) -> Value {
   let mut pbuf = Vec::new();
   let mut handles: BTreeMap<u64, tokio::task::JoinHandle<anyhow::Result<(Message, Option<narwhal_util::pool::PoolBuffer>)>>> = BTreeMap::new();
   let mut results = Vec::new();
+  let mut peer_stalled = false;
   for op in c["ops"].as_array().unwrap() {
     let mut note = Value::Null;
     match op["t"].as_str().unwrap() {
+      "peer_stall" => {
+        // the peer stays connected but stops (or resumes) reading
+        peer_stalled = op.get("on").and_then(|v| v.as_bool()).unwrap_or(true);
+      },
+      "issue_many" => {
+        let from = op["from"].as_u64().unwrap();
+        let count = op["count"].as_u64().unwrap();
+        for id in from..from + count {
+          let msg = Message::S2mAuth(S2mAuthParameters { id: id as u32, token: "t".into() });
+          match client.send_message(msg, None).await {
+            Ok(h) => {
+              handles.insert(id, h);
+            },
+            Err(e) => note = json!({"send_error": e.to_string()}),
+          }
+        }
+        if let Some(np) = peer_side.lock().unwrap().take() {
+          peer = Some(np);
+          pbuf.clear();
+        }
+      },
+      "reply_many" => {
+        let from = op["from"].as_u64().unwrap();
+        let count = op["count"].as_u64().unwrap();
+        if let Some(p) = peer.as_mut() {
+          for id in from..from + count {
+            let _ = p.write_all(format!("S2M_AUTH_ACK id={} succeeded=true username=u\n", id).as_bytes()).await;
+          }
+        }
+      },
       "issue" => {
         let id = op["id"].as_u64().unwrap();
         let msg = Message::S2mAuth(S2mAuthParameters { id: id as u32, token: "t".into() });
@@ -163,7 +195,7 @@ async fn run_history(c: &Value) -> Value {
       _ => {},
     }
     tokio::time::sleep(Duration::from_millis(10)).await;
-    let frames = drain_peer(&mut peer, &mut pbuf).await;
+    let frames = if peer_stalled { Vec::new() } else { drain_peer(&mut peer, &mut pbuf).await };
     let mut done = serde_json::Map::new();
     let ids: Vec<u64> = handles.keys().cloned().collect();
     for id in ids {
